@@ -421,6 +421,14 @@ def explore(ctx, mods, cfg, r_ops, w_ops, bound, nrandom, limit, sink, opcodes=F
           tr = run_plan(plan)
           n += 1
           sink(tr, dict(cfg=cfg, r_ops=r_ops, w_ops=w_ops, kind='window', plan=[[p[0], list(p[1])] for p in plan]))
+    # ... and the code BEFORE the first release: the writer is j source lines into its drain (emptiness test, the strategy's
+    # choice - under the lock or not) when the storing thread runs one whole operation (a new series, a new datapoint)
+    for j in range(1, 13):
+      for first in (1, 2):
+        plan = [('R', ('kind', 'op', first)), ('W', ('kind', 'line', j)), ('R', ('kind', 'op', 1)), ('W', ('done',)), ('R', ('done',))]
+        tr = run_plan(plan)
+        n += 1
+        sink(tr, dict(cfg=cfg, r_ops=r_ops, w_ops=w_ops, kind='window', plan=[[p[0], list(p[1])] for p in plan]))
   return n, exhausted
 
 
